@@ -251,6 +251,18 @@ def coord_case(draw, tier):
     hi = 14 if tier == "quick" else 32
     shape = draw(gen.shape2(3, hi, big=0.03, big_pool=[64, 65, 128, 129, 255, 256]))
     m = draw(gen.support_mask(shape, min_samples=3))
+    if draw(st.integers(0, 7)) == 0:
+        # a large aperture that is symmetric about the array's origin sample except for a few dead pixels: its centroid
+        # lies 1e-5 .. 1e-2 samples from the array centre (relative tolerances such as np.allclose's 1e-5 x 256 samples
+        # take that for "centred")
+        N0, N1 = draw(st.integers(300, 560)), draw(st.integers(300, 560))
+        yy, xx = np.mgrid[0:N0, 0:N1]
+        rad = draw(gen.finite(0.3, 0.45)) * min(N0, N1)
+        m = ((yy - N0 // 2) ** 2 + (xx - N1 // 2) ** 2 <= rad ** 2)
+        for _ in range(draw(st.integers(1, 3))):
+            dr, dc = draw(st.integers(-int(rad * 0.6), int(rad * 0.6))), draw(st.integers(-int(rad * 0.6), int(rad * 0.6)))
+            if dr and dc:
+                m[N0 // 2 + dr, N1 // 2 + dc] = False
     return {"mask": m.astype(int), "j": draw(st.integers(1, 36)), "scale": draw(st.sampled_from([2, 0.5, 7.25, -3]))}
 
 
@@ -267,7 +279,8 @@ def default_coordinates(case, ctx):
         raise Skip("single_sample_mask")
     centred = abs(r0 - mask.shape[0] // 2) < 1e-12 and abs(c0 - mask.shape[1] // 2) < 1e-12
     ctx.tag(gen.parity_tags("m", mask.shape), "odd_size" if mask.shape[0] % 2 or mask.shape[1] % 2 else "even_size",
-            "offcentre_mask" if not centred else "centred_mask")
+            "offcentre_mask" if not centred else "centred_mask",
+            "centroid_within_1e-2_of_centre" if not centred and max(abs(r0 - mask.shape[0] // 2), abs(c0 - mask.shape[1] // 2)) < 1e-2 else None)
     ctx.nontrivial_if(not centred or mask.shape[0] % 2 == 1 or mask.shape[1] % 2 == 1)
     with lentil_call("C11.coords", "zernike_coordinates"):
         rho, theta = lentil.zernike_coordinates(mask)
